@@ -1,16 +1,1180 @@
 package main
 
-// Replay of solver models against the real code (go test -overlay).
+// Replay of solver counterexamples against the real code. A model is turned into Go
+// values (type-directed, following pointers and slices through the modelled memory),
+// an in-package test is generated that checks the assumptions on the real input,
+// runs the real function(s) and evaluates the violated clause in Go. The test is
+// injected with `go test -overlay` (nothing is written to /repo).
+
+import (
+	"bufio"
+	"context"
+	"encoding/json"
+	"fmt"
+	"go/types"
+	"io"
+	"math/big"
+	"os"
+	"os/exec"
+	"path/filepath"
+	"regexp"
+	"sort"
+	"strings"
+	"time"
+
+	"golang.org/x/tools/go/ssa"
+)
 
 type ReplayResult struct {
 	Outcome string `json:"outcome"` // reproduced, not-reproduced, skipped, error
 	Detail  string `json:"detail"`
 	Test    string `json:"test,omitempty"`
 	Output  string `json:"output,omitempty"`
+	Cmd     string `json:"cmd,omitempty"`
 }
 
-func tryReplay(r *checkRun, o *Obligation, model string) *ReplayResult {
-	return &ReplayResult{Outcome: "skipped", Detail: "replay harness not available for this obligation kind"}
+// ---- interactive solver session ----
+
+type session struct {
+	cmd *exec.Cmd
+	in  io.WriteCloser
+	out *bufio.Reader
+	cancel context.CancelFunc
 }
 
-func cmdReplay(args []string) int { return 2 }
+func newSession(query string, timeout time.Duration, extra ...string) (*session, string, error) {
+	ctx, cancel := context.WithTimeout(context.Background(), timeout)
+	cmd := exec.CommandContext(ctx, "z3-new", "-in")
+	in, _ := cmd.StdinPipe()
+	outp, _ := cmd.StdoutPipe()
+	cmd.Stderr = cmd.Stdout
+	if err := cmd.Start(); err != nil {
+		cancel()
+		return nil, "", err
+	}
+	s := &session{cmd: cmd, in: in, out: bufio.NewReader(outp), cancel: cancel}
+	q := strings.Replace(query, "(get-model)\n", "", 1)
+	// symbols the model extraction may ask about must exist before the model is built
+	var pre []string
+	for _, sym := range []string{"strempty", "strlt", "strlen"} {
+		if !strings.Contains(q, "(declare-const "+sym+" ") && !strings.Contains(q, "(declare-fun "+sym+" ") {
+			pre = append(pre, onDemandDecls[sym])
+		}
+	}
+	extra = append(pre, extra...)
+	if len(extra) > 0 {
+		q = strings.Replace(q, "(check-sat)\n", strings.Join(extra, "\n")+"\n(check-sat)\n", 1)
+	}
+	io.WriteString(in, q)
+	for {
+		line, err := s.out.ReadString('\n')
+		if err != nil {
+			s.close()
+			return nil, "", fmt.Errorf("solver session ended: %v", err)
+		}
+		line = strings.TrimSpace(line)
+		if line == "" || strings.HasPrefix(line, "WARNING") {
+			continue
+		}
+		if line != "sat" {
+			s.close()
+			return nil, line, nil
+		}
+		return s, "sat", nil
+	}
+}
+
+func (s *session) close() {
+	s.in.Close()
+	s.cancel()
+	s.cmd.Wait()
+}
+
+// eval returns the model value of a term as an S-expression string.
+func (s *session) eval(term string) (string, error) {
+	io.WriteString(s.in, "(get-value ("+term+"))\n")
+	depth := 0
+	var sb strings.Builder
+	started := false
+	for {
+		c, err := s.out.ReadByte()
+		if err != nil {
+			return "", err
+		}
+		if c == '|' {
+			sb.WriteByte(c)
+			for {
+				d, err := s.out.ReadByte()
+				if err != nil {
+					return "", err
+				}
+				sb.WriteByte(d)
+				if d == '|' {
+					break
+				}
+			}
+			continue
+		}
+		if c == '(' {
+			depth++
+			started = true
+		}
+		if started {
+			sb.WriteByte(c)
+		}
+		if c == ')' {
+			depth--
+			if started && depth == 0 {
+				break
+			}
+		}
+	}
+	txt := sb.String()
+	if strings.HasPrefix(txt, "(error") {
+		return "", fmt.Errorf("%s", txt)
+	}
+	// ((term value)) -> value: take the last top-level element of the inner list
+	inner := strings.TrimSpace(txt[1 : len(txt)-1])
+	inner = strings.TrimSpace(inner[1 : len(inner)-1])
+	parts := splitTop(inner)
+	if len(parts) < 2 {
+		return "", fmt.Errorf("unexpected get-value answer %q", txt)
+	}
+	return parts[len(parts)-1], nil
+}
+
+func splitTop(s string) []string {
+	var parts []string
+	depth := 0
+	start := -1
+	inBar := false
+	for i := 0; i < len(s); i++ {
+		c := s[i]
+		if inBar {
+			if c == '|' {
+				inBar = false
+			}
+			continue
+		}
+		switch c {
+		case '|':
+			inBar = true
+			if start < 0 {
+				start = i
+			}
+		case '(':
+			if depth == 0 && start < 0 {
+				start = i
+			}
+			depth++
+		case ')':
+			depth--
+			if depth == 0 {
+				parts = append(parts, s[start:i+1])
+				start = -1
+			}
+		case ' ', '\n', '\t', '\r':
+			if depth == 0 && start >= 0 {
+				parts = append(parts, s[start:i])
+				start = -1
+			}
+		default:
+			if start < 0 {
+				start = i
+			}
+		}
+	}
+	if start >= 0 {
+		parts = append(parts, s[start:])
+	}
+	return parts
+}
+
+func parseIntVal(v string) (*big.Int, bool) {
+	v = strings.TrimSpace(v)
+	if strings.HasPrefix(v, "#x") {
+		b, ok := new(big.Int).SetString(v[2:], 16)
+		return b, ok
+	}
+	if strings.HasPrefix(v, "#b") {
+		b, ok := new(big.Int).SetString(v[2:], 2)
+		return b, ok
+	}
+	if strings.HasPrefix(v, "(- ") {
+		b, ok := new(big.Int).SetString(strings.TrimSpace(v[3:len(v)-1]), 10)
+		if ok {
+			return b.Neg(b), true
+		}
+		return nil, false
+	}
+	if strings.HasPrefix(v, "(_ bv") {
+		f := strings.Fields(v[5:])
+		b, ok := new(big.Int).SetString(f[0], 10)
+		return b, ok
+	}
+	b, ok := new(big.Int).SetString(v, 10)
+	return b, ok
+}
+
+// ---- model -> Go values ----
+
+type builder struct {
+	s       *session
+	vc      *VC
+	st      *State // entry state
+	stmts   []string
+	objs    map[string]string // "obj/idx/fld" of struct objects -> Go variable
+	arrays  map[string]string // "arr/fld/type" -> Go slice variable (backing array)
+	arrLen  map[string]int
+	strs    map[string]string // abstract Str value -> Go literal
+	strTerms []string
+	ctr     int
+	pkg     *types.Package
+	imports map[string]string // name -> path
+	err     error
+	depth   int
+	shrink  []string // constraints that would make the model smaller
+	tooBig  string
+	query   string
+}
+
+func (b *builder) fail(f string, a ...interface{}) {
+	if b.err == nil {
+		b.err = fmt.Errorf(f, a...)
+	}
+}
+
+func (b *builder) fresh(p string) string {
+	b.ctr++
+	return fmt.Sprintf("%s%d", p, b.ctr)
+}
+
+func smtInt(n *big.Int) string {
+	if n.Sign() < 0 {
+		return "(- " + new(big.Int).Neg(n).String() + ")"
+	}
+	return n.String()
+}
+
+var onDemandDecls = map[string]string{
+	"strempty": "(declare-const strempty Str)",
+	"strlt":    "(declare-fun strlt (Str Str) Bool)",
+	"strlen":   "(declare-fun strlen (Str) Int)",
+}
+
+func (b *builder) ev(term string) string {
+	v, err := b.s.eval(term)
+	if err != nil {
+		b.fail("get-value %s: %v", truncate(term, 80), err)
+		return ""
+	}
+	return v
+}
+
+func (b *builder) evInt(term string) *big.Int {
+	v := b.ev(term)
+	if b.err != nil {
+		return big.NewInt(0)
+	}
+	n, ok := parseIntVal(v)
+	if !ok {
+		b.fail("cannot parse integer value %q of %s", v, truncate(term, 80))
+		return big.NewInt(0)
+	}
+	return n
+}
+
+func (b *builder) typeStr(t types.Type) string {
+	return types.TypeString(t, func(p *types.Package) string {
+		if p == b.pkg {
+			return ""
+		}
+		b.imports[p.Name()] = p.Path()
+		return p.Name()
+	})
+}
+
+// value returns a Go expression for the model value of `term` of type t.
+func (b *builder) value(term string, t types.Type) string {
+	if b.err != nil {
+		return "nil"
+	}
+	b.depth++
+	defer func() { b.depth-- }()
+	if b.depth > 6 {
+		// far from the inputs the exact model value rarely matters; the verdict comes from running the real code
+		switch t.Underlying().(type) {
+		case *types.Pointer, *types.Slice, *types.Map, *types.Interface:
+			return "nil"
+		}
+	}
+	e := b.vc.enc
+	switch u := t.Underlying().(type) {
+	case *types.Basic:
+		switch {
+		case u.Info()&types.IsBoolean != 0:
+			return b.ev(term)
+		case u.Info()&types.IsInteger != 0:
+			n := b.evInt(term)
+			w, signed := intWidth(u)
+			if e.isBV(t) && signed && n.Cmp(pow2(w-1)) >= 0 {
+				n = new(big.Int).Sub(n, pow2(w))
+			}
+			return fmt.Sprintf("%s(%s)", b.typeStr(t), n.String())
+		case u.Info()&types.IsFloat != 0:
+			bits := b.evInt(fmt.Sprintf("((_ fp.to_ubv 64) RNE (fp.abs %s))", term)) // placeholder, replaced below
+			_ = bits
+			v := b.ev(term)
+			return b.floatExpr(v, t)
+		case u.Info()&types.IsString != 0:
+			return b.strValue(term)
+		}
+	case *types.Pointer:
+		obj := b.evInt(pObj(term))
+		if obj.Sign() == 0 {
+			return "nil"
+		}
+		idx := b.evInt(pIdx(term))
+		fld := b.evInt(pFld(term))
+		if fld.Sign() != 0 {
+			b.shrink = append(b.shrink, fmt.Sprintf("(assert (= (p.fld %s) 0))", term))
+			b.tooBig = fmt.Sprintf("pointer to a struct field (fld %s)", fld)
+			fld = big.NewInt(0)
+		}
+		if idx.Sign() != 0 && !strings.HasPrefix(term, "(idx ") {
+			// prefer models in which plain pointers are not element pointers
+			b.shrink = append(b.shrink, fmt.Sprintf("(assert (= (p.idx %s) 0))", term))
+			if idx.Sign() < 0 || !idx.IsInt64() || idx.Int64() > 8 {
+				b.tooBig = fmt.Sprintf("pointer into an array at index %s", idx)
+				idx = big.NewInt(0)
+			}
+		}
+		return b.pointerTo(obj, idx, fld, u.Elem(), term)
+	case *types.Slice:
+		arr := b.evInt(sArr(term))
+		if arr.Sign() == 0 {
+			return "nil"
+		}
+		off := b.evInt(sOff(term))
+		ln := b.evInt(sLen(term))
+		fld := b.evInt(sFld(term))
+		if !ln.IsInt64() || ln.Int64() > 8 || !off.IsInt64() || off.Int64() > 8 {
+			b.shrink = append(b.shrink, fmt.Sprintf("(assert (and (<= (s.len %s) 3) (<= (s.off %s) 1)))", term, term))
+			b.tooBig = fmt.Sprintf("model slice too large to replay (len %s, off %s)", ln, off)
+			// keep exploring with a clamped value to discover further terms to shrink
+			ln, off = big.NewInt(2), big.NewInt(0)
+		}
+		av := b.backing(arr, fld, u.Elem(), int(off.Int64()+ln.Int64()), term, off.Int64())
+		return fmt.Sprintf("%s[%d:%d:%d]", av, off.Int64(), off.Int64()+ln.Int64(), off.Int64()+ln.Int64())
+	case *types.Struct:
+		s := e.structSort(t)
+		var fs []string
+		for i := 0; i < u.NumFields(); i++ {
+			f := u.Field(i)
+			if !b.representable(f.Type()) {
+				continue
+			}
+			fs = append(fs, fmt.Sprintf("%s: %s", f.Name(), b.value(fmt.Sprintf("(%s.%d %s)", s, i, term), f.Type())))
+		}
+		return fmt.Sprintf("%s{%s}", b.typeStr(t), strings.Join(fs, ", "))
+	case *types.Interface:
+		v := b.ev(fmt.Sprintf("(= %s nil.iface)", term))
+		if v == "true" {
+			return "nil"
+		}
+		if isErrorType(t) {
+			b.imports["errors"] = "errors"
+			return `errors.New("replay")`
+		}
+		b.fail("non-nil interface value of type %s cannot be replayed", t)
+		return "nil"
+	case *types.Map:
+		v := b.evInt(term)
+		if v.Sign() == 0 {
+			return "nil"
+		}
+		return fmt.Sprintf("%s{}", b.typeStr(t))
+	}
+	b.fail("values of type %s cannot be replayed", t)
+	return "nil"
+}
+
+func (b *builder) representable(t types.Type) bool {
+	switch u := t.Underlying().(type) {
+	case *types.Basic:
+		return u.Kind() != types.UnsafePointer
+	case *types.Pointer, *types.Slice, *types.Interface, *types.Map:
+		return true
+	case *types.Struct:
+		if n, ok := t.(*types.Named); ok && n.Obj().Pkg() != nil && n.Obj().Pkg().Path() == "sync" {
+			return false
+		}
+		return true
+	}
+	return false
+}
+
+func (b *builder) floatExpr(v string, t types.Type) string {
+	b.imports["math"] = "math"
+	v = strings.TrimSpace(v)
+	switch {
+	case strings.HasPrefix(v, "(fp "):
+		parts := splitTop(v[4 : len(v)-1])
+		if len(parts) == 3 {
+			bits := new(big.Int)
+			for _, p := range parts {
+				n, ok := parseIntVal(p)
+				if !ok {
+					b.fail("bad fp literal %s", v)
+					return "0"
+				}
+				w := 0
+				if strings.HasPrefix(p, "#b") {
+					w = len(p) - 2
+				} else if strings.HasPrefix(p, "#x") {
+					w = 4 * (len(p) - 2)
+				}
+				bits.Lsh(bits, uint(w))
+				bits.Or(bits, n)
+			}
+			return fmt.Sprintf("math.Float64frombits(0x%x)", bits)
+		}
+	case strings.Contains(v, "+zero"):
+		return "0.0"
+	case strings.Contains(v, "-zero"):
+		return "math.Copysign(0, -1)"
+	case strings.Contains(v, "+oo"):
+		return "math.Inf(1)"
+	case strings.Contains(v, "-oo"):
+		return "math.Inf(-1)"
+	case strings.Contains(v, "NaN"):
+		return "math.NaN()"
+	}
+	b.fail("cannot parse float value %s", v)
+	return "0"
+}
+
+// strValue: abstract strings are made concrete so that equality and (where known) order agree with the model.
+func (b *builder) strValue(term string) string {
+	abs := b.ev(term)
+	if lit, ok := b.strs[abs]; ok {
+		return lit
+	}
+	// a program literal?
+	for _, s := range b.vc.enc.strOrder {
+		if b.ev(fmt.Sprintf("(= %s %s)", term, b.vc.enc.strLits[s])) == "true" {
+			lit := fmt.Sprintf("%q", s)
+			b.strs[abs] = lit
+			return lit
+		}
+	}
+	if b.ev(fmt.Sprintf("(= %s strempty)", term)) == "true" {
+		b.strs[abs] = `""`
+		return `""`
+	}
+	// rank among the abstract strings seen so far, by the model's strlt
+	rank := 0
+	for _, other := range b.strTerms {
+		if b.ev(fmt.Sprintf("(strlt %s %s)", other, term)) == "true" {
+			rank++
+		}
+	}
+	b.strTerms = append(b.strTerms, term)
+	n := int64(1)
+	if l := b.evInt(fmt.Sprintf("(strlen %s)", term)); l.IsInt64() && l.Int64() >= 1 && l.Int64() <= 64 {
+		n = l.Int64()
+	}
+	// names are spaced out so that later strings can be ranked between earlier ones
+	name := fmt.Sprintf("s%03d", 500+rank*7+len(b.strTerms))
+	_ = n
+	lit := fmt.Sprintf("%q", name)
+	b.strs[abs] = lit
+	return lit
+}
+
+// backing returns a Go variable holding the backing array (as a slice) of object arr.
+// sliceTerm/off: a symbolic slice over this array (elements are read through it so that
+// shrinking constraints stay meaningful across models); "" for pointer-only access.
+func (b *builder) backing(arr, fld *big.Int, elem types.Type, need int, sliceTerm string, off int64) string {
+	key := fmt.Sprintf("%s/%s/%s", arr, fld, typeKey(elem))
+	if v, ok := b.arrays[key]; ok {
+		if b.arrLen[key] < need {
+			b.fail("backing array referenced with different extents")
+		}
+		return v
+	}
+	v := b.fresh("arr")
+	b.arrays[key] = v
+	if need < 1 {
+		need = 1
+	}
+	n := need + 2
+	b.arrLen[key] = n
+	idx := len(b.stmts)
+	b.stmts = append(b.stmts, "") // placeholder: declaration must precede element construction
+	b.stmts[idx] = fmt.Sprintf("%s := make([]%s, %d)", v, b.typeStr(elem), n)
+	for i := 0; i < need; i++ {
+		p := mkPtr(smtInt(arr), fmt.Sprint(i), smtInt(fld))
+		if sliceTerm != "" {
+			if int64(i) < off {
+				continue
+			}
+			p = b.vc.enc.elemPtr(sliceTerm, fmt.Sprint(int64(i)-off))
+		}
+		if _, isStruct := elem.Underlying().(*types.Struct); isStruct {
+			b.fillStruct(fmt.Sprintf("%s[%d]", v, i), p, elem)
+		} else {
+			val := b.value(b.vc.load(b.st, p, elem), elem)
+			b.stmts = append(b.stmts, fmt.Sprintf("%s[%d] = %s", v, i, val))
+		}
+	}
+	return v
+}
+
+func (b *builder) fillStruct(lhs, p string, t types.Type) {
+	st := t.Underlying().(*types.Struct)
+	for i := 0; i < st.NumFields(); i++ {
+		f := st.Field(i)
+		if !b.representable(f.Type()) {
+			continue
+		}
+		fp := b.vc.enc.fieldPtr(p, i)
+		if _, isStruct := f.Type().Underlying().(*types.Struct); isStruct {
+			b.fillStruct(lhs+"."+f.Name(), fp, f.Type())
+			continue
+		}
+		if _, isArr := f.Type().Underlying().(*types.Array); isArr {
+			continue
+		}
+		if !strings.Contains(b.query, "M_"+typeKey(f.Type())+"@") && !strings.Contains(b.query, "M_"+typeKey(f.Type())+"!") && !strings.Contains(b.query, "M_"+typeKey(f.Type())+".") {
+			continue // this memory plays no role in the query: the zero value is as good as any
+		}
+		val := b.value(b.vc.load(b.st, fp, f.Type()), f.Type())
+		b.stmts = append(b.stmts, fmt.Sprintf("%s.%s = %s", lhs, f.Name(), val))
+	}
+}
+
+// pointerTo returns a Go expression for a pointer to the object at (obj, idx, fld) of type elem.
+func (b *builder) pointerTo(obj, idx, fld *big.Int, elem types.Type, term string) string {
+	key := fmt.Sprintf("%s/%s/%s/%s", obj, idx, fld, typeKey(elem))
+	if v, ok := b.objs[key]; ok {
+		return v
+	}
+	if idx.Sign() != 0 || b.isBackingArray(obj, fld, elem) {
+		// pointer to a slice element
+		if !idx.IsInt64() || idx.Int64() > 64 || idx.Sign() < 0 {
+			b.fail("pointer into array at index %s cannot be replayed", idx)
+			return "nil"
+		}
+		av := b.backing(obj, fld, elem, int(idx.Int64())+1, "", 0)
+		return fmt.Sprintf("&%s[%d]", av, idx.Int64())
+	}
+	if fld.Sign() != 0 {
+		b.fail("pointer to a struct field (fld %s) cannot be replayed", fld)
+		return "nil"
+	}
+	v := b.fresh("p")
+	b.objs[key] = v
+	p := term
+	if _, isStruct := elem.Underlying().(*types.Struct); isStruct {
+		b.stmts = append(b.stmts, fmt.Sprintf("%s := new(%s)", v, b.typeStr(elem)))
+		b.fillStruct("(*"+v+")", p, elem)
+	} else {
+		val := b.value(b.vc.load(b.st, p, elem), elem)
+		b.stmts = append(b.stmts, fmt.Sprintf("%s := new(%s)", v, b.typeStr(elem)), fmt.Sprintf("*%s = %s", v, val))
+	}
+	return v
+}
+
+func (b *builder) isBackingArray(obj, fld *big.Int, elem types.Type) bool {
+	_, ok := b.arrays[fmt.Sprintf("%s/%s/%s", obj, fld, typeKey(elem))]
+	return ok
+}
+
+// ---- spec -> Go ----
+
+type goTrans struct {
+	vc      *VC
+	pkg     *types.Package
+	specs   map[string]bool
+	helpers []string
+	err     error
+	olds    []string // old_k := expr statements (evaluated before the call)
+	imports map[string]string
+}
+
+func (g *goTrans) fail(f string, a ...interface{}) {
+	if g.err == nil {
+		g.err = fmt.Errorf(f, a...)
+	}
+}
+
+var boundRe = regexp.MustCompile(`^\(\((\S+) <= (\w+)\) && \((\w+) < (.+)\)\)$`)
+
+func (g *goTrans) expr(e Expr) string {
+	switch e := e.(type) {
+	case *EIdent:
+		return e.Name
+	case *EInt:
+		return e.Text
+	case *EFloat:
+		return e.Text
+	case *EStr:
+		return fmt.Sprintf("%q", e.Val)
+	case *EChar:
+		return fmt.Sprintf("%q", rune(e.Val))
+	case *EUnary:
+		return "(" + e.Op + g.expr(e.X) + ")"
+	case *EBinary:
+		switch e.Op {
+		case "==>":
+			return "(!(" + g.expr(e.X) + ") || (" + g.expr(e.Y) + "))"
+		case "<==>":
+			return "((" + g.expr(e.X) + ") == (" + g.expr(e.Y) + "))"
+		}
+		return "(" + g.expr(e.X) + " " + e.Op + " " + g.expr(e.Y) + ")"
+	case *ESelector:
+		return g.expr(e.X) + "." + e.Sel
+	case *EIndex:
+		return g.expr(e.X) + "[" + g.expr(e.I) + "]"
+	case *ESlice:
+		lo, hi := "", ""
+		if e.Lo != nil {
+			lo = g.expr(e.Lo)
+		}
+		if e.Hi != nil {
+			hi = g.expr(e.Hi)
+		}
+		return g.expr(e.X) + "[" + lo + ":" + hi + "]"
+	case *EType:
+		return e.T.String()
+	case *ECall:
+		name := ""
+		if id, ok := e.Fun.(*EIdent); ok {
+			name = id.Name
+		}
+		var args []string
+		for _, a := range e.Args {
+			args = append(args, g.expr(a))
+		}
+		switch name {
+		case "old":
+			v := fmt.Sprintf("old%d", len(g.olds))
+			g.olds = append(g.olds, fmt.Sprintf("%s := %s", v, args[0]))
+			return v
+		case "ite":
+			return fmt.Sprintf("vite(%s, %s, %s)", args[0], args[1], args[2])
+		case "elem_addr":
+			return fmt.Sprintf("(&%s[%s])", args[0], args[1])
+		case "index_in":
+			return fmt.Sprintf("vindexIn(%s, %s)", args[0], args[1])
+		case "has":
+			return fmt.Sprintf("vhas(%s, %s)", args[0], args[1])
+		case "fresh", "allocated", "same_elems":
+			g.fail("%s() is not executable", name)
+			return "true"
+		case "round":
+			g.imports["math"] = "math"
+			return fmt.Sprintf("math.Round(%s)", args[0])
+		case "fabs":
+			g.imports["math"] = "math"
+			return fmt.Sprintf("math.Abs(%s)", args[0])
+		case "isnan":
+			g.imports["math"] = "math"
+			return fmt.Sprintf("math.IsNaN(%s)", args[0])
+		case "isinf":
+			g.imports["math"] = "math"
+			return fmt.Sprintf("math.IsInf(%s, 0)", args[0])
+		}
+		if sf := g.vc.findSpec(name, g.pkg); sf != nil {
+			g.specFunc(sf)
+			return "vspec_" + name + "(" + strings.Join(args, ", ") + ")"
+		}
+		return g.expr(e.Fun) + "(" + strings.Join(args, ", ") + ")"
+	case *EQuant:
+		// only range-bounded quantifiers over one integer variable are executable
+		if len(e.Vars) != 1 {
+			// nest
+			inner := &EQuant{Forall: e.Forall, Vars: e.Vars[1:], Body: e.Body}
+			outer := &EQuant{Forall: e.Forall, Vars: e.Vars[:1], Body: inner}
+			return g.quant(outer)
+		}
+		return g.quant(e)
+	}
+	g.fail("expression %s is not executable", e)
+	return "true"
+}
+
+// quant: forall i int :: lo <= i && i < hi ==> P   /  exists i int :: lo <= i && i < hi && P
+func (g *goTrans) quant(e *EQuant) string {
+	v := e.Vars[0].Name
+	var guard, body Expr
+	if e.Forall {
+		if b, ok := e.Body.(*EBinary); ok && b.Op == "==>" {
+			guard, body = b.X, b.Y
+		} else if q, ok := e.Body.(*EQuant); ok && q.Forall {
+			// forall i :: forall j :: ... : bounds are inside; cannot split
+			_ = q
+		}
+	} else {
+		guard, body = splitFirstConj(e.Body)
+	}
+	if guard == nil {
+		g.fail("quantifier without an explicit range is not executable: %s", e)
+		return "true"
+	}
+	lo, hi, rest, ok := rangeOf(guard, v)
+	if !ok {
+		g.fail("quantifier range not of the form lo <= %s && %s < hi: %s", v, v, guard)
+		return "true"
+	}
+	cond := g.expr(body)
+	if rest != nil {
+		if e.Forall {
+			cond = "(!(" + g.expr(rest) + ") || " + cond + ")"
+		} else {
+			cond = "(" + g.expr(rest) + " && " + cond + ")"
+		}
+	}
+	if e.Forall {
+		return fmt.Sprintf("func() bool { for %s := int(%s); %s < int(%s); %s++ { if !(%s) { return false } }; return true }()", v, g.expr(lo), v, g.expr(hi), v, cond)
+	}
+	return fmt.Sprintf("func() bool { for %s := int(%s); %s < int(%s); %s++ { if %s { return true } }; return false }()", v, g.expr(lo), v, g.expr(hi), v, cond)
+}
+
+// splitFirstConj flattens a conjunction and returns (range part, rest).
+func conjuncts(e Expr, out *[]Expr) {
+	if b, ok := e.(*EBinary); ok && b.Op == "&&" {
+		conjuncts(b.X, out)
+		conjuncts(b.Y, out)
+		return
+	}
+	*out = append(*out, e)
+}
+
+func splitFirstConj(e Expr) (Expr, Expr) {
+	var cs []Expr
+	conjuncts(e, &cs)
+	if len(cs) < 3 {
+		if len(cs) == 2 {
+			return e, &EIdent{Name: "true"}
+		}
+		return nil, nil
+	}
+	guard := &EBinary{Op: "&&", X: cs[0], Y: cs[1]}
+	var rest Expr = cs[2]
+	for _, c := range cs[3:] {
+		rest = &EBinary{Op: "&&", X: rest, Y: c}
+	}
+	return guard, rest
+}
+
+// rangeOf extracts lo <= v && v < hi from a conjunction; remaining conjuncts are returned in rest.
+func rangeOf(guard Expr, v string) (lo, hi, rest Expr, ok bool) {
+	var cs []Expr
+	conjuncts(guard, &cs)
+	for _, c := range cs {
+		b, isB := c.(*EBinary)
+		if !isB {
+			rest = andExpr(rest, c)
+			continue
+		}
+		xid, xIs := b.X.(*EIdent)
+		yid, yIs := b.Y.(*EIdent)
+		switch {
+		case b.Op == "<=" && yIs && yid.Name == v && lo == nil && !mentionsVar(b.X, v):
+			lo = b.X
+		case b.Op == "<" && yIs && yid.Name == v && lo == nil && !mentionsVar(b.X, v):
+			lo = &EBinary{Op: "+", X: b.X, Y: &EInt{Text: "1"}}
+		case b.Op == "<" && xIs && xid.Name == v && hi == nil && !mentionsVar(b.Y, v):
+			hi = b.Y
+		case b.Op == "<=" && xIs && xid.Name == v && hi == nil && !mentionsVar(b.Y, v):
+			hi = &EBinary{Op: "+", X: b.Y, Y: &EInt{Text: "1"}}
+		default:
+			rest = andExpr(rest, c)
+		}
+	}
+	return lo, hi, rest, lo != nil && hi != nil
+}
+
+func andExpr(a, b Expr) Expr {
+	if a == nil {
+		return b
+	}
+	return &EBinary{Op: "&&", X: a, Y: b}
+}
+
+func mentionsVar(e Expr, v string) bool {
+	return regexp.MustCompile(`\b` + regexp.QuoteMeta(v) + `\b`).MatchString(e.String())
+}
+
+func (g *goTrans) specFunc(sf *SpecFunc) {
+	if g.specs[sf.Name] {
+		return
+	}
+	g.specs[sf.Name] = true
+	if sf.Body == nil {
+		g.fail("uninterpreted spec function %s is not executable", sf.Name)
+		return
+	}
+	var ps []string
+	for _, p := range sf.Params {
+		ps = append(ps, p.Name+" "+p.T.String())
+	}
+	body := g.expr(sf.Body)
+	g.helpers = append(g.helpers, fmt.Sprintf("func vspec_%s(%s) %s { return %s }", sf.Name, strings.Join(ps, ", "), sf.Result.String(), body))
+}
+
+const replayHelpers = `
+func vite[T any](c bool, a, b T) T { if c { return a }; return b }
+func vindexIn[T any](s []T, p *T) int { for i := range s { if &s[i] == p { return i } }; return -1 }
+func vhas[K comparable, V any](m map[K]V, k K) bool { _, ok := m[k]; return ok }
+`
+
+// ---- test generation and execution ----
+
+// canonicalPrefs: prefer models in which every pointer stored in entry memory points to
+// a whole object (idx 0, fld 0) and stored slices are short.
+func canonicalPrefs(query string) []string {
+	var out []string
+	re := regexp.MustCompile(`\(declare-const (\|M_[^|]*@entry\|) \(Array Ptr (Ptr|Slice)\)\)`)
+	for _, m := range re.FindAllStringSubmatch(query, -1) {
+		if m[2] == "Ptr" {
+			out = append(out, fmt.Sprintf("(assert (forall ((p Ptr)) (! (and (= (p.idx (select %s p)) 0) (= (p.fld (select %s p)) 0)) :pattern ((select %s p)))))", m[1], m[1], m[1]))
+		} else {
+			out = append(out, fmt.Sprintf("(assert (forall ((p Ptr)) (! (and (<= (s.len (select %s p)) 2) (= (s.off (select %s p)) 0) (= (s.fld (select %s p)) 0)) :pattern ((select %s p)))))", m[1], m[1], m[1], m[1]))
+		}
+	}
+	return out
+}
+
+func tryReplay(r *checkRun, o *Obligation, model string) (res *ReplayResult) {
+	// first with global preferences for canonical models, then without
+	if prefs := canonicalPrefs(o.Query); len(prefs) > 0 {
+		if res := tryReplayWith(r, o, prefs); res != nil && res.Outcome != "skipped" {
+			return res
+		}
+	}
+	return tryReplayWith(r, o, nil)
+}
+
+func tryReplayWith(r *checkRun, o *Obligation, extra []string) (res *ReplayResult) {
+	for iter := 0; iter < 6; iter++ {
+		var more []string
+		res, more = tryReplayOnce(r, o, extra)
+		if res == nil {
+			return &ReplayResult{Outcome: "skipped", Detail: "replay harness failed"}
+		}
+		if len(more) == 0 || res.Outcome != "skipped" {
+			return res
+		}
+		extra = append(extra, more...)
+	}
+	return res
+}
+
+func tryReplayOnce(r *checkRun, o *Obligation, extra []string) (res *ReplayResult, shrink []string) {
+	defer func() {
+		if x := recover(); x != nil {
+			fmt.Fprintln(os.Stderr, "replay panic:", x)
+			res = &ReplayResult{Outcome: "skipped", Detail: fmt.Sprint("replay harness panic: ", x)}
+		}
+	}()
+	var bref *builder
+	vc := o.vc
+	if vc == nil {
+		res = &ReplayResult{Outcome: "skipped", Detail: "no VC context"}
+		return res, shrinkOf(bref)
+	}
+	if o.Kind != "ensures" && o.Kind != "lemma" && o.Kind != "safety" && o.Kind != "requires" {
+		res = &ReplayResult{Outcome: "skipped", Detail: "obligation kind " + o.Kind + " is internal to the proof (loop invariant / termination); no executable statement to replay"}
+		return res, shrinkOf(bref)
+	}
+	sess, status, err := newSession(o.Query, 40*time.Second, extra...)
+	if err != nil || sess == nil {
+		res = &ReplayResult{Outcome: "skipped", Detail: fmt.Sprintf("no model from interactive solver session (%s %v)", status, err)}
+		return res, shrinkOf(bref)
+	}
+	defer sess.close()
+	var pkg *types.Package
+	var pkgPath string
+	if vc.fn != nil {
+		pkg = vc.fn.Pkg.Pkg
+	} else if vc.lemmaPkg != nil {
+		pkg = vc.lemmaPkg.Pkg
+	}
+	if pkg == nil {
+		res = &ReplayResult{Outcome: "skipped", Detail: "no package"}
+		return res, shrinkOf(bref)
+	}
+	pkgPath = pkg.Path()
+	var entrySt *State
+	if vc.top != nil {
+		entrySt = vc.top.entrySt
+	} else if vc.entryCtx != nil {
+		entrySt = vc.entryCtx.st
+	}
+	b := &builder{s: sess, vc: vc, st: entrySt, objs: map[string]string{}, arrays: map[string]string{}, arrLen: map[string]int{}, strs: map[string]string{}, pkg: pkg, imports: map[string]string{"testing": "testing", "fmt": "fmt"}, query: o.Query}
+	bref = b
+	g := &goTrans{vc: vc, pkg: pkg, specs: map[string]bool{}, imports: b.imports}
+	var body []string
+	emit := func(f string, a ...interface{}) { body = append(body, fmt.Sprintf(f, a...)) }
+	if vc.fn != nil {
+		fn := vc.fn
+		fr := vc.top
+		var argNames []string
+		for i, p := range fn.Params {
+			val := b.value(fr.params[i].T, p.Type())
+			b.stmts = append(b.stmts, fmt.Sprintf("var %s %s = %s", p.Name(), b.typeStr(p.Type()), val), "_ = "+p.Name())
+			argNames = append(argNames, p.Name())
+		}
+		if len(fn.FreeVars) > 0 {
+			res = &ReplayResult{Outcome: "skipped", Detail: "closures with captured variables cannot be called from a test"}
+		return res, shrinkOf(bref)
+		}
+		if b.err == nil && b.tooBig != "" {
+			b.err = fmt.Errorf("%s", b.tooBig)
+		}
+		if b.err != nil {
+			res = &ReplayResult{Outcome: "skipped", Detail: "model not representable as Go input: " + b.err.Error()}
+		return res, shrinkOf(bref)
+		}
+		for _, rq := range vc.fc.Requires {
+			emit("if !(%s) { fmt.Println(\"VERIF-REPLAY: input does not satisfy requires: %s\"); return }", g.expr(rq.E), strings.ReplaceAll(rq.Text, `"`, `'`))
+		}
+		// the call
+		call := ""
+		if fn.Signature.Recv() != nil {
+			call = fmt.Sprintf("%s.%s(%s)", argNames[0], fn.Name(), strings.Join(argNames[1:], ", "))
+			if _, isPtr := fn.Signature.Recv().Type().(*types.Pointer); !isPtr {
+				call = fmt.Sprintf("%s.%s(%s)", argNames[0], fn.Name(), strings.Join(argNames[1:], ", "))
+			}
+		} else {
+			call = fmt.Sprintf("%s(%s)", fn.Name(), strings.Join(argNames, ", "))
+		}
+		var clause string
+		if o.Kind == "ensures" {
+			// find the clause expression
+			var ce Expr
+			for k, en := range vc.fc.Ensures {
+				if strings.HasSuffix(strings.SplitN(o.Name, "@", 2)[0], "#ensures"+labelOr(en.Label, k)) {
+					ce = en.E
+				}
+			}
+			if ce == nil {
+				res = &ReplayResult{Outcome: "skipped", Detail: "clause not found"}
+		return res, shrinkOf(bref)
+			}
+			clause = g.expr(ce)
+		}
+		for _, s := range g.olds {
+			emit("%s", s)
+		}
+		nres := fn.Signature.Results().Len()
+		var rnames []string
+		for i := 0; i < nres; i++ {
+			rnames = append(rnames, fmt.Sprintf("result%d", i))
+		}
+		emit("defer func() { if x := recover(); x != nil { fmt.Println(\"VERIF-REPLAY: PANIC:\", x) } }()")
+		if nres > 0 {
+			emit("%s := %s", strings.Join(rnames, ", "), call)
+			for i, rn := range rnames {
+				emit("_ = %s", rn)
+				if nm := fn.Signature.Results().At(i).Name(); nm != "" && nm != "_" {
+					emit("%s := %s; _ = %s", nm, rn, nm)
+				}
+			}
+			if nres == 1 {
+				emit("result := result0; _ = result")
+			}
+		} else {
+			emit("%s", call)
+		}
+		if o.Kind == "ensures" {
+			emit("if !(%s) { fmt.Println(\"VERIF-REPLAY: REPRODUCED: clause is false on the real code\") } else { fmt.Println(\"VERIF-REPLAY: clause holds on the real code for this input\") }", clause)
+		} else {
+			emit("fmt.Println(\"VERIF-REPLAY: no panic on the real code for this input\")")
+		}
+	} else if vc.lemma != nil {
+		l := vc.lemma
+		vars := map[string]Val{}
+		for _, v := range l.Vars {
+			val, ok := vc.entryCtx.lookup(v.Name)
+			if !ok {
+				res = &ReplayResult{Outcome: "skipped", Detail: "lemma variable not found"}
+		return res, shrinkOf(bref)
+			}
+			vars[v.Name] = val
+			b.stmts = append(b.stmts, fmt.Sprintf("var %s %s = %s", v.Name, b.typeStr(val.Typ), b.value(val.T, val.Typ)), "_ = "+v.Name)
+		}
+		if b.err == nil && b.tooBig != "" {
+			b.err = fmt.Errorf("%s", b.tooBig)
+		}
+		if b.err != nil {
+			res = &ReplayResult{Outcome: "skipped", Detail: "model not representable as Go input: " + b.err.Error()}
+		return res, shrinkOf(bref)
+		}
+		emit("defer func() { if x := recover(); x != nil { fmt.Println(\"VERIF-REPLAY: PANIC:\", x) } }()")
+		nconc := 0
+		target := strings.SplitN(o.Name, "@", 2)[0]
+		done := false
+		for _, s := range l.Steps {
+			if done {
+				break
+			}
+			switch s.Kind {
+			case "assume":
+				emit("if !(%s) { fmt.Println(\"VERIF-REPLAY: input does not satisfy assumption: %s\"); return }", g.expr(s.E), strings.ReplaceAll(s.Text, `"`, `'`))
+			case "call":
+				res = &ReplayResult{Outcome: "skipped", Detail: "lemma uses callee contracts (call steps); only lemmas that execute bodies (exec) can be replayed"}
+		return res, shrinkOf(bref)
+			case "exec":
+				callee := r.prog.FindFunc(pkgPath, s.Callee)
+				if callee == nil {
+					res = &ReplayResult{Outcome: "skipped", Detail: "callee not found"}
+		return res, shrinkOf(bref)
+				}
+				var args []string
+				for _, a := range s.Args {
+					args = append(args, g.expr(a))
+				}
+				var call string
+				if callee.Parent() != nil {
+					res = &ReplayResult{Outcome: "skipped", Detail: "closure bodies cannot be called from a test"}
+		return res, shrinkOf(bref)
+				}
+				if callee.Signature.Recv() != nil {
+					call = fmt.Sprintf("%s.%s(%s)", args[0], callee.Name(), strings.Join(args[1:], ", "))
+				} else {
+					call = fmt.Sprintf("%s(%s)", callee.Name(), strings.Join(args, ", "))
+				}
+				if len(s.Results) > 0 {
+					emit("%s := %s", strings.Join(s.Results, ", "), call)
+					for _, rn := range s.Results {
+						if rn != "_" {
+							emit("_ = %s", rn)
+						}
+					}
+				} else {
+					emit("%s", call)
+				}
+			case "conclude":
+				nconc++
+				name := vc.qname + "#conclude" + labelOr(s.Label, nconc-1)
+				if name == target {
+					emit("if !(%s) { fmt.Println(\"VERIF-REPLAY: REPRODUCED: conclusion is false on the real code\") } else { fmt.Println(\"VERIF-REPLAY: conclusion holds on the real code for this input\") }", g.expr(s.E))
+					done = true
+				}
+			}
+		}
+		if !done {
+			res = &ReplayResult{Outcome: "skipped", Detail: "conclusion not found"}
+		return res, shrinkOf(bref)
+		}
+	}
+	if g.err != nil {
+		res = &ReplayResult{Outcome: "skipped", Detail: "clause not executable: " + g.err.Error()}
+		return res, shrinkOf(bref)
+	}
+	// spec text may mention imported packages (elf.PT_LOAD ...)
+	all := strings.Join(body, "\n") + strings.Join(g.helpers, "\n")
+	for _, imp := range pkg.Imports() {
+		if regexp.MustCompile(`\b` + regexp.QuoteMeta(imp.Name()) + `\.`).MatchString(all) {
+			b.imports[imp.Name()] = imp.Path()
+		}
+	}
+	var src strings.Builder
+	fmt.Fprintf(&src, "package %s\n\nimport (\n", pkg.Name())
+	var ims []string
+	for n, p := range b.imports {
+		ims = append(ims, fmt.Sprintf("\t%s %q", n, p))
+	}
+	sort.Strings(ims)
+	src.WriteString(strings.Join(ims, "\n"))
+	src.WriteString("\n)\n")
+	src.WriteString(replayHelpers)
+	for _, h := range g.helpers {
+		src.WriteString(h + "\n")
+	}
+	src.WriteString("\nfunc TestVerifReplay(verifT *testing.T) {\n")
+	for _, s := range b.stmts {
+		src.WriteString("\t" + s + "\n")
+	}
+	for _, s := range body {
+		src.WriteString("\t" + s + "\n")
+	}
+	src.WriteString("}\n")
+	return runReplayTest(pkgPath, src.String()), nil
+}
+
+func shrinkOf(b *builder) []string {
+	if b == nil {
+		return nil
+	}
+	return b.shrink
+}
+
+func runReplayTest(pkgPath, src string) *ReplayResult {
+	dir := scratch()
+	rel := strings.TrimPrefix(strings.TrimPrefix(pkgPath, modPath), "/")
+	testFile := filepath.Join(dir, fmt.Sprintf("replay_%d_test.go", time.Now().UnixNano()))
+	os.WriteFile(testFile, []byte(src), 0o644)
+	ov := map[string]map[string]string{"Replace": {filepath.Join(repoDir, rel, "zz_verif_replay_test.go"): testFile}}
+	ovFile := testFile + ".overlay.json"
+	data, _ := json.Marshal(ov)
+	os.WriteFile(ovFile, data, 0o644)
+	ctx, cancel := context.WithTimeout(context.Background(), 120*time.Second)
+	defer cancel()
+	cmdline := fmt.Sprintf("ulimit -v 4000000; cd %s && go test -overlay %s -vet=off -count=1 -timeout 60s -run '^TestVerifReplay$' -v ./%s", repoDir, ovFile, rel)
+	cmd := exec.CommandContext(ctx, "bash", "-c", cmdline)
+	cmd.Env = append(os.Environ(), "GOFLAGS=-mod=mod", "GOPROXY=off", "GOSUMDB=off", "GOTOOLCHAIN=local")
+	out, _ := cmd.CombinedOutput()
+	res := &ReplayResult{Test: src, Output: truncate(string(out), 3000), Cmd: "go test -overlay <ov.json> -vet=off -count=1 -timeout 60s -run '^TestVerifReplay$' ./" + rel}
+	switch {
+	case strings.Contains(string(out), "VERIF-REPLAY: REPRODUCED") || strings.Contains(string(out), "VERIF-REPLAY: PANIC"):
+		res.Outcome = "reproduced"
+		res.Detail = "the real code violates the clause on the input extracted from the solver model"
+	case strings.Contains(string(out), "VERIF-REPLAY:"):
+		res.Outcome = "not-reproduced"
+		res.Detail = "the real code satisfies the clause on this input: the model lives in an abstraction (uninterpreted strings/functions, unconstrained external results)"
+	default:
+		res.Outcome = "error"
+		res.Detail = "replay test did not build or run"
+	}
+	return res
+}
+
+func cmdReplay(args []string) int {
+	if len(args) < 1 {
+		usage()
+	}
+	data, err := os.ReadFile(args[0])
+	if err != nil {
+		fmt.Fprintln(os.Stderr, err)
+		return 2
+	}
+	var rec struct {
+		Property   string        `json:"property"`
+		Obligation string        `json:"obligation"`
+		Replay     *ReplayResult `json:"replay"`
+	}
+	if err := json.Unmarshal(data, &rec); err != nil || rec.Replay == nil || rec.Replay.Test == "" {
+		fmt.Printf("replay file %s carries no executable test (obligation %s): no-failing-input-found\n", args[0], rec.Obligation)
+		return 0
+	}
+	// find package from the test source
+	m := regexp.MustCompile(`-run '\^TestVerifReplay\$' \./(\S+)`).FindStringSubmatch(rec.Replay.Cmd)
+	if m == nil {
+		fmt.Println("cannot determine package")
+		return 2
+	}
+	res := runReplayTest(modPath+"/"+m[1], rec.Replay.Test)
+	fmt.Println(res.Output)
+	fmt.Println("outcome:", res.Outcome)
+	if res.Outcome == "reproduced" {
+		return 1
+	}
+	return 0
+}
+
+var _ ssa.Value
